@@ -689,6 +689,8 @@ def _not(e):
 
 
 def _ghost_of(x):
+    if hasattr(x, "__vx_array__"):
+        x = x.__vx_array__()
     if isinstance(x, SymArray):
         return x.ghost
     if isinstance(x, MaskedSelection):
@@ -730,6 +732,8 @@ def _flatten_nested(x, out):
 
 def _values_and_idx(x):
     """Return (flat values list, idx array) for any array-like or scalar."""
+    if hasattr(x, "__vx_array__"):
+        x = x.__vx_array__()
     if isinstance(x, SymArray):
         return x.base, x.idx
     if isinstance(x, _np.ndarray):
@@ -948,6 +952,8 @@ class ndarray(metaclass=_NdarrayMeta):
 
 
 def array(obj, dtype=None, copy=True, ndmin=0, **kw):
+    if hasattr(obj, "__vx_array__"):
+        obj = obj.__vx_array__()
     if isinstance(obj, SymArray):
         r = obj.astype(dtype) if dtype is not None else (obj.copy() if copy else obj)
     elif isinstance(obj, MaskedSelection):
@@ -968,6 +974,8 @@ def array(obj, dtype=None, copy=True, ndmin=0, **kw):
 
 
 def asarray(obj, dtype=None, **kw):
+    if hasattr(obj, "__vx_array__"):
+        obj = obj.__vx_array__()
     if isinstance(obj, SymArray) and (dtype is None or _np.dtype(dtype) == obj.dtype):
         return obj
     return array(obj, dtype=dtype)
